@@ -189,10 +189,35 @@ class Methods:
         return Int(0, max(len(seq) - 1, 0))
 
     # ------------------------------------------------------------- str methods
+    FOLDABLE = {'replace', 'upper', 'lower', 'strip', 'lstrip', 'rstrip', 'zfill', 'startswith', 'endswith', 'isdigit', 'isalpha', 'isalnum',
+                'ljust', 'rjust', 'title', 'capitalize', 'swapcase', 'count', 'find', 'rsplit', 'split', 'partition'}
+
     def str_method(self, s, name, args, kwargs, node, env):
         S = self.ctx.S
         ctx = self.ctx
         a0 = args[0] if args else None
+        # constant folding: a method of a constant string with constant arguments
+        if name in self.FOLDABLE and not kwargs:
+            cv = S.const_value(env, s)
+            if cv is not None:
+                cargs = []
+                for a in args:
+                    if isinstance(a, Str) and S.const_value(env, a) is not None:
+                        cargs.append(S.const_value(env, a))
+                    elif isinstance(a, Int) and a.const() is not None:
+                        cargs.append(a.const())
+                    else:
+                        cargs = None
+                        break
+                if cargs is not None:
+                    try:
+                        r = getattr(cv, name)(*cargs)
+                    except Exception:
+                        r = None
+                    if isinstance(r, (str, bool, int)):
+                        return self.from_py(r, env)
+                    if isinstance(r, (list, tuple)) and all(isinstance(x, str) for x in r):
+                        return Tup([S.const(x) for x in r], isinstance(r, list))
         if name == 'strip' or name == 'lstrip' or name == 'rstrip':
             cls = None
             if a0 is not None and a0 is not NONE:
